@@ -40,6 +40,8 @@ class Work:
         return os.path.join(self.dir, *a)
 
     def cleanup(self):
+        if os.environ.get("VERIF_KEEP_WORK"):
+            return
         shutil.rmtree(self.dir, ignore_errors=True)
 
 
